@@ -63,7 +63,7 @@ CONTEXTS = {
     'tm': ['stdout', 'contents', 'def', 'fm-contents', 'line-contents', 'transformed'],
     'fm': ['exists', 'exists', 'def', 'every-file', 'any-file', 'selection', 'with-pruned'],
     'fsm': ['dir-contents', 'dir-contents', 'def', 'fm-dir-contents', 'selection-operand', 'pruned-operand'],
-    'tr': ['def', 'def', 'file', 'tm-transformed', 'program-output'],
+    'tr': ['def', 'def', 'file', 'tm-transformed', 'program-output', 'per-line', 'per-line', 'per-file'],
 }
 # contexts in which E itself is a full expression (the others take a simple expression)
 FULL_CONTEXTS = {'exit-code', 'exit-code-from', 'def', 'stdout', 'contents', 'exists', 'dir-contents'}
@@ -131,6 +131,15 @@ def wrap(host, ctx, e, world):
             return 'contents', 'tm', ['transformed', e, ['run', 'Z', 0]], False
         if ctx == 'program-output':
             return 'stdout-from', 'tr', e, True
+        # one transformer value applied to several models (every line / every file) - its value must be the same
+        # function of the structure at every application
+        per_model = ['transformed', e, ['matches', 'AbXa'[world['k'] % 4]]]
+        if ctx == 'per-line':
+            q = 'every-line' if world['k'] % 3 else 'any-line'
+            return 'stdout', 'tm', [q, ['contents', per_model if world['k'] % 2 else ['not', per_model]]], False
+        if ctx == 'per-file':
+            q = 'every-file' if world['k'] % 3 else 'any-file'
+            return 'dir-contents', 'fsm', ['selection', ['type', 'file'], [q, ['contents', per_model]]], False
     raise ValueError('%s/%s' % (host, ctx))
 
 
